@@ -235,19 +235,22 @@ models feed it: a positive `c`, a non-negative `sigma_squared`, at least one tea
 "`0 ≤ gammaVal g c k mu s2 rank` for all arguments" is false for the library default `sqrt(σ²)/c` at
 `c < 0`; it implies this one: `gammaNonneg_of_forall`.) -/
 def GammaNonneg (g : GammaFn α) : Prop :=
-  ∀ (c : α) (k : Nat) (mu s2 : α) (rank : Nat), 𝟘 < c → 𝟘 ≤ s2 → 0 < k →
-    𝟘 ≤ gammaVal g c k mu s2 rank
+  ∀ (c : α) (k : Nat) (mu s2 : α) (team : List (Rating α)) (rank : Nat), 𝟘 < c → 𝟘 ≤ s2 → 0 < k →
+    𝟘 ≤ gammaVal g c k mu s2 team rank
 
 theorem gammaNonneg_of_forall {g : GammaFn α}
-    (h : ∀ (c : α) (k : Nat) (mu s2 : α) (rank : Nat), 𝟘 ≤ gammaVal g c k mu s2 rank) :
-    GammaNonneg g := fun c k mu s2 rank _ _ _ => h c k mu s2 rank
+    (h : ∀ (c : α) (k : Nat) (mu s2 : α) (team : List (Rating α)) (rank : Nat), 𝟘 ≤ gammaVal g c k mu s2 team rank) :
+    GammaNonneg g := fun c k mu s2 team rank _ _ _ => h c k mu s2 team rank
 
 /-- the default callback, `1/k`, `1/(rank+1)`, `0` and every non-negative constant are admissible
 in every monotone arithmetic (`σ²/c²` is too whenever the computed `c*c` is positive) -/
 theorem MonoArith.fl1_gammaNonneg_of_tag (M : MonoArith α) (g : GammaFn α)
-    (hg : ∀ x, g = .const x → 𝟘 ≤ x) (hsq : g ≠ .sq) : GammaNonneg g := by
-  intro c k mu s2 rank hc hs hk
+    (hg : ∀ x, g = .const x → 𝟘 ≤ x) (hsq : g ≠ .sq)
+    (hfn : ∀ f, g = .fn f → ∀ c k mu s2 team rank, 𝟘 < c → 𝟘 ≤ s2 → 0 < k → 𝟘 ≤ f c k mu s2 team rank) :
+    GammaNonneg g := by
+  intro c k mu s2 team rank hc hs hk
   cases g with
+  | fn f => exact hfn f rfl c k mu s2 team rank hc hs hk
   | dflt => exact M.div_nonneg' (M.sqrt_nonneg' _) hc
   | const x => exact hg x rfl
   | invK => exact M.div_nonneg' M.fl1_zero_le_one (M.fl1_zero_lt_ofNat hk)
@@ -294,7 +297,7 @@ theorem fl1_btPair_snd_nonneg (beta : α) (g : GammaFn α) (hg : GammaNonneg g) 
     𝟘 ≤ (btPair beta g n ti tq).2 := by
   simp only [btPair]
   exact M.mul_nonneg' (M.mul_nonneg'
-    (M.div_nonneg' (M.mul_nonneg' (hg _ _ _ _ _ hc hs hn) (M.div_nonneg' hs hc)) hc)
+    (M.div_nonneg' (M.mul_nonneg' (hg _ _ _ _ _ _ hc hs hn) (M.div_nonneg' hs hc)) hc)
     (M.fl1_bt_p_nonneg _)) (M.sub_nonneg' (M.fl1_bt_p_le_one _))
 
 /-- Bradley–Terry: against a team ranked strictly behind, the mean component is `≥ 0` -/
@@ -319,7 +322,7 @@ theorem fl1_tmPair_snd_nonneg (L : Leaves α) (hL : LeavesNonneg L) (cmul beta k
     (hs : 𝟘 ≤ ti.sig2)
     (hc : 𝟘 < cmul * sqrt (ti.sig2 + tq.sig2 + ofNat 2 * (beta * beta))) :
     𝟘 ≤ (tmPair L cmul beta kappa g n ti tq).2 := by
-  have hpre := M.div_nonneg' (M.mul_nonneg' (hg _ n ti.mu _ ti.rank hc hs hn)
+  have hpre := M.div_nonneg' (M.mul_nonneg' (hg _ n ti.mu _ ti.players ti.rank hc hs hn)
     (M.div_nonneg' hs hc)) hc
   simp only [tmPair]
   split
@@ -466,7 +469,7 @@ theorem fl1_plOmegaDelta_snd_nonneg (g : GammaFn α) (hg : GammaNonneg g) (ts : 
     𝟘 ≤ (plOmegaDelta g ts c (plSumQ ts c) (plA ts) i ti).2 := by
   simp only [plOmegaDelta]
   refine M.mul_nonneg' (M.mul_nonneg' ?_ (M.div_nonneg' hs hcc))
-    (hg c ts.length ti.mu ti.sig2 ti.rank hc hs (List.length_pos_of_mem hti))
+    (hg c ts.length ti.mu ti.sig2 ti.players ti.rank hc hs (List.length_pos_of_mem hti))
   apply M.fl1_sumL_nonneg
   intro y hy
   obtain ⟨x, hx, rfl⟩ := List.mem_map.1 hy
